@@ -43,8 +43,8 @@ UNIT = dict(
         dict(kind="struct", file=WR, struct="ReadPlan"),
         dict(kind="prelude", file="rkyv.rs"),
         dict(kind="model", file="parse_model.rs"),
-        dict(kind="fn", file=CFG, path="fn checksum64",
-             rules=[dict(rule="R8", kind="re", pat=r"for &b in data \{", repl="for i in 0..data.len() { let b = data[i];", why="for &b in slice -> indexed loop")]),
+        dict(kind="model", file="bytes_model.rs"),
+        CHECKSUM_ITEM,
         dict(kind="region", file=WR, within="impl Walrus / fn batch_read_for_topic",
              start="// 4) Parse entries from buffers in plan order", end="// 5) Commit progress (optional)",
              sig="fn batch_read_parse(plan: &Vec<ReadPlan>, buffers: &Vec<Vec<u8>>, max_bytes: usize, initial_trim_in: usize) -> (ret: IoResult<%s>)" % OUTS,
@@ -64,14 +64,13 @@ UNIT = dict(
                  ("C01,C03,C15:parse_returns_every_parsed_entry", "ret matches Ok(o) ==> (initial_trim_in == 0 ==> o.0.len() == o.6)"),
              ],
              hints=[dict(before="        for plan_idx in 0..plan.len()", text="        let ghost mut consumed: Seq<usize> = Seq::empty(); // ghost: where parsing of each range stopped"),
-                    dict(after="                buf_offset += entry_consumed;\n            }", text="            proof { let c0 = consumed; consumed = consumed.push(buf_offset); assert(forall|j: int| 0 <= j < c0.len() ==> consumed[j] == c0[j]); assert(consumed[plan_idx as int] == buf_offset); }"),
+                    dict(after="                buf_offset += entry_consumed;\n            }", text="            proof { lemma_ranges_done_push(consumed, plan@, buffers@, plan_idx as int, buf_offset); consumed = consumed.push(buf_offset); }"),
                     dict(before="entries.push(Entry { data: final_data });", text="                    let ghost es0 = entries@;"),
                     dict(after="entries.push(Entry { data: final_data });", text="                    proof { lemma_payload_sum_push(es0, entries@.last()); }")],
              loops={
                  0: dict(kind="for", invariant_except_break=[
                      # entries of range p are only looked at after every earlier range was delivered to the end of its block
-                     ("C01:inv_no_range_skipped", "forall|j: int| 0 <= j < plan_idx ==> #[trigger] consumed[j] == buffers[j].len() && (plan[j].is_tail || plan[j].end >= plan[j].blk.used)"),
-                     ("", "consumed.len() == plan_idx"),
+                     ("C01:inv_no_range_skipped", "ranges_done(consumed, plan@, buffers@, plan_idx as int)"),
                  ], invariant=[
                      ("", "buffers.len() == plan.len()"), ("", "plan.len() < 1024"),
                      ("", "forall|i: int| 0 <= i < buffers.len() ==> #[trigger] buffers[i].len() <= 0x4000_0000 && plan[i].start + buffers[i].len() <= u64::MAX"),
